@@ -169,12 +169,12 @@ VF_ZCFG_END
 VF_ZCFG_BEGIN(14, 3, false, true, P2_2, 255, 2, 1)   // L = 255, manual, headless, payload
 	static constexpr int inj(int) { return 0; } static constexpr int headInj() { return 0; } static constexpr bool bare(int) { return false; }
 VF_ZCFG_END
-template <> struct ZCfg<15> {   // states 1 and 2 define complementary halves of the callbacks
-	static constexpr int N = 4; static constexpr bool HAS_HEAD = true; static constexpr bool IS_MANUAL = false;
+template <> struct ZCfg<15> {   // states 1 and 2 define complementary halves of the callbacks; states 4 and 5 do the same on top of one injection that defines them all
+	static constexpr int N = 6; static constexpr bool HAS_HEAD = true; static constexpr bool IS_MANUAL = false;
 	using Payload = void; static constexpr int L = 4; static constexpr int CAP = 0; static constexpr int CTX = 0;
-	static constexpr int inj(int) { return 0; } static constexpr int headInj() { return 0; }
-	static constexpr bool bare(int i) { return i == 1 || i == 2; }
-	static constexpr int kind(int i) { return i == 1 ? 2 : i == 2 ? 3 : 0; }
+	static constexpr int inj(int i) { return i >= 4 ? 1 : 0; } static constexpr int headInj() { return 0; }
+	static constexpr bool bare(int i) { return i == 1 || i == 2 || i == 4 || i == 5; }
+	static constexpr int kind(int i) { return i == 1 ? 2 : i == 2 ? 3 : i == 4 ? 4 : i == 5 ? 5 : 0; }
 };
 VF_ZCFG_BEGIN(16, 64, true, false, P12_4, 6, 0, 3)   // the largest machine the 64-bit activity masks of the trace can describe; serial form is exactly one byte
 	static constexpr int inj(int i) { return i == 63 ? 1 : 0; } static constexpr int headInj() { return 0; } static constexpr bool bare(int) { return false; }
@@ -346,6 +346,24 @@ struct StT<CFG, I, 3> : Zoo<CFG>::FSM::State {
 	VF_LOCAL
 	VF_CB_ENTER(I, WHO_SELF) VF_CB_UPDATE(I, WHO_SELF) VF_CB_PRE_REACT(I, WHO_SELF) VF_CB_POST_REACT(I, WHO_SELF) VF_CB_QUERY(I, WHO_SELF) VF_CB_EXIT_GUARD(I, WHO_SELF)
 	uint32_t localSum() const { return seen; }
+};
+// ... and the same two halves for a state that has one injection: whatever the state does not define itself is inherited from the library's
+// defaults, NOT from the injection (whose own callback is run by the injection chain, exactly once)
+template <int CFG, int I>
+struct StT<CFG, I, 4> : StBase<CFG, I, 1>::type {
+	VF_FSM_TYPES(CFG)
+	bool thisOk() const;
+	VF_LOCAL
+	VF_CB_ENTRY_GUARD(I, WHO_SELF) VF_CB_REENTER(I, WHO_SELF) VF_CB_PRE_UPDATE(I, WHO_SELF) VF_CB_POST_UPDATE(I, WHO_SELF) VF_CB_REACT(I, WHO_SELF) VF_CB_EXIT(I, WHO_SELF)
+	uint32_t localSum() const { return seen * 31u + static_cast<const Inj<CFG, I, 0>*>(this)->seen; }
+};
+template <int CFG, int I>
+struct StT<CFG, I, 5> : StBase<CFG, I, 1>::type {
+	VF_FSM_TYPES(CFG)
+	bool thisOk() const;
+	VF_LOCAL
+	VF_CB_ENTER(I, WHO_SELF) VF_CB_UPDATE(I, WHO_SELF) VF_CB_PRE_REACT(I, WHO_SELF) VF_CB_POST_REACT(I, WHO_SELF) VF_CB_QUERY(I, WHO_SELF) VF_CB_EXIT_GUARD(I, WHO_SELF)
+	uint32_t localSum() const { return seen * 31u + static_cast<const Inj<CFG, I, 0>*>(this)->seen; }
 };
 static constexpr uint16_t DEF_A = (1u << M_ENTRY_GUARD) | (1u << M_REENTER) | (1u << M_PRE_UPDATE) | (1u << M_POST_UPDATE) | (1u << M_REACT) | (1u << M_EXIT);
 static constexpr uint16_t DEF_B = (1u << M_ENTER) | (1u << M_UPDATE) | (1u << M_PRE_REACT) | (1u << M_POST_REACT) | (1u << M_QUERY) | (1u << M_EXIT_GUARD);
@@ -1330,7 +1348,7 @@ struct Runner {
 		static_assert(N <= MASK_BITS, "the trace describes machines of up to 128 states");
 		for (int i = 0; i < N && i < MASK_BITS; ++i) {
 			f.inj[i] = Z::inj(i); if (Z::bare(i)) f.bare |= (Mask(1) << i);
-			f.defMask[i] = Z::kind(i) == 0 ? 0xFFFF : Z::kind(i) == 1 ? 0 : Z::kind(i) == 2 ? DEF_A : DEF_B;
+			f.defMask[i] = Z::kind(i) == 0 ? 0xFFFF : Z::kind(i) == 1 ? 0 : (Z::kind(i) == 2 || Z::kind(i) == 4) ? DEF_A : DEF_B;
 		}
 		f.headInj = Z::headInj();
 #ifdef VF_PLANS
@@ -1457,12 +1475,12 @@ template <int CFG> TaskV Runner<CFG>::scratch[2][260];
 template <int CFG, int I, int J> bool Inj<CFG, I, J, false>::thisOk() const {
 	using R = Runner<CFG>;
 	if constexpr (I == HEAD_TAG) return this == static_cast<const Inj*>(&R::ptr(W.cur)->template access<Hd<CFG>>());
-	else return this == static_cast<const Inj*>(&R::ptr(W.cur)->template access<StT<CFG, I, 0>>());
+	else return this == static_cast<const Inj*>(&R::ptr(W.cur)->template access<StT<CFG, I, ZCfg<CFG>::kind(I)>>());
 }
 template <int CFG, int I, int J> bool Inj<CFG, I, J, true>::thisOk() const {
 	using R = Runner<CFG>;
 	if constexpr (I == HEAD_TAG) return this == static_cast<const Inj*>(&R::ptr(W.cur)->template access<Hd<CFG>>());
-	else return this == static_cast<const Inj*>(&R::ptr(W.cur)->template access<StT<CFG, I, 0>>());
+	else return this == static_cast<const Inj*>(&R::ptr(W.cur)->template access<StT<CFG, I, ZCfg<CFG>::kind(I)>>());
 }
 // both overloads of access<T>() (const and non-const machine) must hand out the very object whose callback is running
 template <class T, class M> bool sameObject(const T* self, M& m) {
@@ -1473,6 +1491,8 @@ template <class T, class M> bool sameObject(const T* self, M& m) {
 template <int CFG, int I> bool StT<CFG, I, 0>::thisOk() const { return sameObject(this, *Runner<CFG>::ptr(W.cur)); }
 template <int CFG, int I> bool StT<CFG, I, 2>::thisOk() const { return sameObject(this, *Runner<CFG>::ptr(W.cur)); }
 template <int CFG, int I> bool StT<CFG, I, 3>::thisOk() const { return sameObject(this, *Runner<CFG>::ptr(W.cur)); }
+template <int CFG, int I> bool StT<CFG, I, 4>::thisOk() const { return sameObject(this, *Runner<CFG>::ptr(W.cur)); }
+template <int CFG, int I> bool StT<CFG, I, 5>::thisOk() const { return sameObject(this, *Runner<CFG>::ptr(W.cur)); }
 template <int CFG> bool Hd<CFG>::thisOk() const { return sameObject(this, *Runner<CFG>::ptr(W.cur)); }
 
 using RunFn = void (*)(const Case&, Trace&, const RunOpts&);
